@@ -72,12 +72,12 @@ GET = {'bool': 'GetBools', 'i8': 'GetInt8s', 'i16': 'GetInt16s', 'i32': 'GetInt3
        'f64': 'GetDoubles', 'pt': 'GetPoints', 'rc': 'GetRects', 'str': 'GetStrings', 'msg': 'GetMessages'}
 
 
-def build_native(model, variant, stats):
-    """The way a Python user builds a Message: Put*() with lists, arrays or bare items."""
-    what, fields = model
+def build_native(script, variant, stats):
+    """The way a Python user builds a Message: Put*() with lists, arrays or bare items (from the script JSON)."""
+    what, fields = ref.from_script(script)
     m = message.Message(what)
     for fi, (name, t, items) in enumerate(fields):
-        n = name.decode('utf-8')
+        n = name.decode('utf-8'); sf = script['fields'][fi]
         v = (variant + fi) % 3          # 0: python list, 1: array.array where the class supports it, 2: bare item if single
         if t in ('bool', 'i8', 'i16', 'i32', 'i64'):
             vals = [bool(x) for x in items] if (t == 'bool' and v != 1) else list(items)
@@ -96,13 +96,16 @@ def build_native(model, variant, stats):
             vals = [x.decode('utf-8') for x in items]
         elif t == 'raw':
             vals = list(items)
+        elif t.startswith('#'):
+            if sf.get('pystr'): vals = [x[:-1].decode('utf-8') for x in items]; stats['py_str_items_in_user_typed_field'] = stats.get('py_str_items_in_user_typed_field', 0) + len(items)
+            else: vals = list(items)
         elif t == 'msg':
-            vals = [build_native(x, variant + 1, stats) for x in items]
+            vals = [build_native(x, variant + 1, stats) for x in sf['v']]
         else:
             raise ValueError('script type ' + t)
         if v == 2 and len(items) == 1 and not isinstance(vals, array.array):
             vals = vals[0]; stats['py_built_from_bare_item'] = stats.get('py_built_from_bare_item', 0) + 1
-        if t == 'raw': m.PutFieldContents(n, message.B_RAW_TYPE, vals)
+        if t == 'raw' or t.startswith('#'): m.PutFieldContents(n, ref.type_code(t), vals)
         else: getattr(m, PUT[t])(n, vals)
     return m
 
@@ -118,7 +121,7 @@ def check_content(m, model, path):
         n = name.decode('utf-8'); here = '%s/%r' % (path, n)
         tc = m.GetFieldType(n)
         if tc != ref.type_code(t): return '%s: type code %r, script says %s' % (here, tc, t)
-        got = m.GetFieldContents(n, message.B_RAW_TYPE) if t == 'raw' else getattr(m, GET[t])(n, None)
+        got = m.GetFieldContents(n, tc) if (t == 'raw' or t.startswith('#')) else getattr(m, GET[t])(n, None)
         if got is None: return '%s: typed getter finds nothing' % here
         if len(got) != len(items): return '%s: %d items, script says %d' % (here, len(got), len(items))
         if m.GetFieldItem(n, tc, None, len(items) - 1) is None: return '%s: GetFieldItem(last) finds nothing' % here
@@ -129,7 +132,7 @@ def check_content(m, model, path):
             elif t == 'f64': ok = same_float(g, f64(want))
             elif t in ('pt', 'rc'): ok = len(g) == len(want) and all(same_float(a, f32(b)) for a, b in zip(g, want))
             elif t == 'str': ok = (g == want.decode('utf-8'))
-            elif t == 'raw': ok = (bytes(g) == want)
+            elif t == 'raw' or t.startswith('#'): ok = (bytes(g) == want)
             else:
                 why = check_content(g, want, '%s[%d]' % (here, i))
                 if why: return why
@@ -168,7 +171,7 @@ def handle(req):
         nonascii_any = has_nonascii_name(model); nonascii_nested = has_nonascii_name(model, nested_only=True)
         DEFECT = 'py|flattenedsize-nonascii-fieldname'
         try:
-            m = build_native(model, int(req.get('case', 0)), stats); bp = m.GetFlattenedBuffer(); fs = m.FlattenedSize(); stats['py_native_built'] = 1
+            m = build_native(req['script'], int(req.get('case', 0)), stats); bp = m.GetFlattenedBuffer(); fs = m.FlattenedSize(); stats['py_native_built'] = 1
             if bp != cpp:
                 pyhex = bp.hex() if len(bp) <= 300000 else '-'
                 fail(DEFECT if nonascii_nested else 'py|bytes-python-vs-cpp', describe_diff('c++', cpp, 'python', bp))
